@@ -206,12 +206,12 @@ def builtin_signature_lemma():
 
 def units():
     from . import c01exec
-    from . import c02assign, c01emit, c01lower, c01driver
+    from . import c02assign, c01emit, c01lower, c01driver, c01frame
     from pyvc.contracts import FilteredUnit
     # where reset() stands inside a step is C04's subject (sequential runs cannot tell 'first thing' from 'last thing of the previous step')
     single = [FilteredUnit(u, lambda n: 'reset-is-the-first-action' not in n and 'plan-is-built-after-reset' not in n and 'the-body-ran' not in n) if isinstance(u, FunctionUnit) else u
               for u in units_single_step()]
-    return units_steploop() + single + c01exec.units() + c02assign.units() + __import__('contracts.c02', fromlist=['builder_block_units']).builder_block_units() + c01emit.units() + c01lower.units() + c01driver.units() + [LemmaUnit("lemma:builtin-signatures", builtin_signature_lemma),FunctionUnit(ResolveArgs()), FunctionUnit(ImplementLoops()),
+    return units_steploop() + single + c01exec.units() + c02assign.units() + __import__('contracts.c02', fromlist=['builder_block_units']).builder_block_units() + c01emit.units() + c01lower.units() + c01driver.units() + c01frame.units() + [LemmaUnit("lemma:builtin-signatures", builtin_signature_lemma),FunctionUnit(ResolveArgs()), FunctionUnit(ImplementLoops()),
                                FunctionUnit(ExecAssignNoSpuriousException())]
 
 
